@@ -536,10 +536,25 @@ Definition handle_main (cmd : str) (ts : list str) : option str :=
                         flat_map show_action (o_actions o))))))
   else None.
 
+(* clean <build_dir> <local 0|1> <verbose 0|1> <unused 0|1> <ninja_ok 0|1> *)
+Definition handle_clean (cmd : str) (ts : list str) : option str :=
+  if str_eqb cmd (S_ "clean") then
+    Some (run (rd_bind rd_s (fun bd => rd_bind rd_bool (fun loc => rd_bind rd_bool (fun v => rd_bind rd_bool (fun u =>
+               rd_bind rd_bool (fun nok => rd_ret (bd, loc, v, u, nok))))))) ts
+              (fun '(bd, loc, v, u, nok) =>
+                 let file := path_push bd (if loc then S_ "build-local.ninja" else S_ "build-global.ninja") in
+                 let o := main_clean (fun _ => nok) file v u in
+                 S_ "ok " ++ show_dec (N.of_nat (o_exit o)) ++ S_ " " ++ show_dec (N.of_nat (length (o_actions o))) ++
+                 flat_map show_action (o_actions o)))
+  else None.
+
 Definition handle5 (line : str) : str :=
   match tokens line with
   | [] => S_ "badrequest"
-  | cmd :: ts => match handle_main cmd ts with Some r => r | None => handle4 line end
+  | cmd :: ts => match handle_main cmd ts with
+                 | Some r => r
+                 | None => match handle_clean cmd ts with Some r => r | None => handle4 line end
+                 end
   end.
 
 (* ---------- histories of runs, edits and kills against the cache machine (Cache.v) ---------- *)
